@@ -391,6 +391,66 @@ def uncache_attribute_locals(tree):
                     break
 
 
+def propagate_constant_locals(tree):
+    """`lo, hi = 0.0049, 0.9951` / `threshold = 200`: a local that is bound exactly once, to a literal constant, and is not declared
+    global / nonlocal is replaced by the literal at its uses (also inside nested functions and comprehensions)."""
+    done = 0
+    for fn in [n for n in ast.walk(tree) if isinstance(n, (ast.FunctionDef, ast.AsyncFunctionDef))]:
+        stores = {}
+        for x in ast.walk(fn):
+            if isinstance(x, ast.Name) and isinstance(x.ctx, (ast.Store, ast.Del)):
+                stores.setdefault(x.id, []).append(x)
+            elif isinstance(x, (ast.Global, ast.Nonlocal)):
+                for nm in x.names:
+                    stores.setdefault(nm, []).extend([None, None])
+            elif isinstance(x, ast.arg):
+                stores.setdefault(x.arg, []).extend([None, None])
+        consts = {}
+        owners = {}
+        for node in ast.walk(fn):
+            for field in ("body", "orelse", "finalbody"):
+                block = getattr(node, field, None)
+                if not (isinstance(block, list) and block and isinstance(block[0], ast.stmt)):
+                    continue
+                for st in block:
+                    if isinstance(st, ast.Assign) and len(st.targets) == 1:
+                        tg, v = st.targets[0], st.value
+                        pairs = []
+                        if isinstance(tg, ast.Name) and isinstance(v, ast.Constant):
+                            pairs = [(tg, v)]
+                        elif isinstance(tg, ast.Tuple) and isinstance(v, ast.Tuple) and len(tg.elts) == len(v.elts) \
+                                and all(isinstance(t, ast.Name) for t in tg.elts) and all(isinstance(c_, ast.Constant) for c_ in v.elts):
+                            pairs = list(zip(tg.elts, v.elts))
+                        for (t, c_) in pairs:
+                            if len(stores.get(t.id, [])) == 1 and isinstance(c_.value, (int, float)) and not isinstance(c_.value, bool):
+                                consts[t.id] = c_
+                                owners[t.id] = (block, st)
+        if not consts:
+            continue
+        # only when every assignment statement involved binds nothing but such constants (so that it can be dropped as a whole)
+        for nm, (block, st) in list(owners.items()):
+            tg = st.targets[0]
+            names = [tg.id] if isinstance(tg, ast.Name) else [t.id for t in tg.elts]
+            if not all(n_ in consts for n_ in names):
+                consts.pop(nm, None)
+        if not consts:
+            continue
+
+        class _C(ast.NodeTransformer):
+            def visit_Name(self, n_):
+                if n_.id in consts and isinstance(n_.ctx, ast.Load):
+                    return ast.copy_location(ast.Constant(value=consts[n_.id].value), n_)
+                return n_
+        _C().visit(fn)
+        for nm, (block, st) in owners.items():
+            if nm in consts and st in block:
+                block.remove(st)
+                if not block:
+                    block.append(ast.Pass())
+        done += len(consts)
+    return done
+
+
 def inline_local_functions(tree):
     """`def add(a, b): return tuple(x + y for x, y in zip(a, b))` (or `add = lambda a, b: ...`) defined inside a function and only
     ever called directly there: every call `add(u, v)` is replaced by the returned expression with the parameters substituted, and
@@ -709,6 +769,7 @@ class ModuleInfo:
             raise AnalysisError("syntax error in %s: %s" % (path, e))
         unmove_static_aliases(self.tree)
         unroll_reflective_loops(self.tree)
+        propagate_constant_locals(self.tree)
         inline_local_functions(self.tree)
         unfold_any_over_local_function(self.tree)
         uncache_attribute_locals(self.tree)
